@@ -307,8 +307,7 @@ func (r *Resolver) onStrBin(g *Scope, name string, t *parser.Type, v *parser.Con
 	}()
 	switch v.Type {
 	case parser.ConstType_ConstLiteral:
-		raw := strings.ReplaceAll(v.TypedValue.GetLiteral(), "\"", "\\\"")
-		return fmt.Sprintf(`"%s"`, raw), nil
+		return fmt.Sprintf(`"%s"`, escapeDoubleQuotes(v.TypedValue.GetLiteral())), nil
 	case parser.ConstType_ConstIdentifier:
 		s := v.TypedValue.GetIdentifier()
 		if s == "true" || s == "false" {
@@ -322,6 +321,23 @@ func (r *Resolver) onStrBin(g *Scope, name string, t *parser.Type, v *parser.Con
 	default:
 	}
 	return "", errTypeMissMatch(name, t, v)
+}
+
+// escapeDoubleQuotes escapes the double quotes of an IDL literal so that it can be
+// put between double quotes in go. A quote that is already escaped in the IDL (which
+// is only possible in a single quoted literal) is left as it is.
+func escapeDoubleQuotes(lit string) string {
+	var sb strings.Builder
+	escaped := false
+	for i := 0; i < len(lit); i++ {
+		c := lit[i]
+		if c == '"' && !escaped {
+			sb.WriteByte('\\')
+		}
+		escaped = c == '\\' && !escaped
+		sb.WriteByte(c)
+	}
+	return sb.String()
 }
 
 func (r *Resolver) onEnum(g *Scope, name string, t *parser.Type, v *parser.ConstValue) (string, error) {
